@@ -125,6 +125,14 @@ class Check:
         case = row.get("case") or {}
         if not case.get("text"):
             return False
+        # (the verdict is settled after two confirmed hangs: further ones are reported as they are; and after a dozen cases
+        # that were merely slowed down the machine is evidently busy: further ones are taken for the same)
+        rc = self.extra.get("hang_rechecks", [])
+        if sum(1 for x in rc if not x["only_slow"]) >= 2:
+            return False
+        if len(rc) >= 12:
+            self.extra["hangs_not_rechecked_(machine_busy)"] = self.extra.get("hangs_not_rechecked_(machine_busy)", 0) + 1
+            return True
         t0 = next((t for t in tasks if t.get("id") == row.get("task")), None)
         tf = os.path.join(WORK, f"{self.prop}_recheck_{row.get('task')}_{row.get('index')}.ndjson")
         write_ndjson(tf, [{"text": case["text"], "wf": False, "label": case.get("label", "recheck")}])
@@ -138,8 +146,9 @@ class Check:
         after = resource.getrusage(resource.RUSAGE_CHILDREN)
         cpu = (after.ru_utime + after.ru_stime) - (before.ru_utime + before.ru_stime)
         finished = not any(x.get("t") in ("hang", "crash") for x in rows) and any(x.get("t") == "done" for x in rows)
-        self.extra.setdefault("hang_rechecks", []).append({"label": case.get("label"), "cpu_s": round(cpu, 2), "limit_s": timeout_ms / 1000, "finished": finished})
-        return finished and cpu <= timeout_ms / 1000
+        only_slow = finished and cpu <= timeout_ms / 1000
+        self.extra.setdefault("hang_rechecks", []).append({"label": case.get("label"), "cpu_s": round(cpu, 2), "limit_s": timeout_ms / 1000, "finished": finished, "only_slow": only_slow})
+        return only_slow
 
     def validate_sessions(self, sessions, name, props):
         # the sessions are independent (each starts with a Reset event): they are cut into chunks of comparable size, each
